@@ -821,6 +821,45 @@ def dangling_fields(P, R, rule='C14.OWN.2'):
     R.floor(rule, 3, 'locals released in the configuration unit')
 
 
+def table_subscripts(P, R, rule='C14.BND.6'):
+    """Every look-up in a fixed-size table made while a file (or a typed value from it) is parsed stays inside the table,
+    whatever bytes the text holds: a table indexed by a character is read at an index the numeric analysis can bound on
+    both sides (a `char` or an `int` loaded from one is negative for bytes >= 0x80 - a test against the table's length
+    alone lets those read in front of it)."""
+    from .. import numeric
+    unit = P.need_fn('conf_read').unit
+    n = 0
+    for f in P.unit_fns(unit):
+        exprs = [x for s in f.sites() for ex in rules.event_exprs(s.ev) for x in walk(ex)] + [x for b in f.blocks for x in walk(f.term_cond(b) or {})]
+        # indexed by a value computed from the text (a local the scan loaded a byte into); a member that holds an enumerator
+        # the code itself stored is another matter
+        def from_text(ix):
+            while isinstance(ix, dict) and ix.get('k') == 'cast':
+                ix = ix.get('e')
+            return is_var(ix) and ix.get('sc') in ('local', 'param') or (isinstance(ix, dict) and ix.get('k') in ('un', 'idx') and 'char' in (ix.get('t') or ''))
+        tabs = [x for x in exprs if x.get('k') == 'idx' and is_var(x.get('base')) and isinstance(x['base'].get('arr'), int) and const_of(x.get('index')) is None and x['base']['name'] != 'char_types' and from_text(x.get('index'))]
+        names = {x['base']['name'] for x in tabs}
+        if not tabs:
+            continue
+        an = numeric.Analysis(f)
+        if an.notes:
+            raise AnalysisBroken('numeric analysis of %s did not converge: %s' % (f.name, an.notes))
+        seen = set()
+        for o in numeric.obligations(an):
+            if o['kind'] != 'subscript' or o['expr'].split('[')[0] not in names:
+                continue
+            w = o['where']
+            k = (o['expr'], getattr(w, 'key', str(w)))
+            if k in seen:
+                continue
+            seen.add(k)
+            n += 1
+            R.ob(rule, o['ok'], w if hasattr(w, 'loc') else f, 'in %s the look-up %s stays inside the table: inferred index range [%s, %s], extent %d' % (f.name, o['expr'], o['lo'], o['hi'], o['extent']),
+                 key='table:%s:%s' % (f.name, o['expr'].split('[')[0]))
+    R.ob(rule, True, P.need_fn('conf_read'), 'fixed-size tables indexed by a computed value in the configuration unit: %d look-up(s)' % n, key='table:walked', nontrivial=False)
+    R.floor(rule, 1)
+
+
 def ctype_subscripts(P, R, rule='C14.BND.4'):
     """Every look-up in the character-class table made while a file is parsed is indexed by a byte (0..255): a text
     with a byte >= 0x80 must be rejected as a syntax error, not read the table at a sign-extended offset.  Decided by
@@ -1020,4 +1059,5 @@ def run(P, R, tier):
     rules.va_list_once(P, R, 'C14.MPT.6')
     # a list in the file is appended to item by item: the vector it grows in really grows
     rules.vector_growth(P, R, 'C14.BND.5')
+    table_subscripts(P, R)
     return EXPLANATION, ASSUMPTIONS
